@@ -278,7 +278,14 @@ class Engine:
             self.discharged += len(items)
             return True
         if r != 'sat':
-            raise Inconclusive(f'solver returned {r} on obligations {[l for _, l in items]}')
+            # the conjunction was too hard as one query: each obligation on its own (sound: all unsat => the conjunction holds)
+            self.q['unknown'] = max(0, self.q.get('unknown', 0) - 1)
+            self.retried = getattr(self, 'retried', 0) + 1
+            self.obligations -= len(items)
+            ok = True
+            for c, l in zip(conds, [l for _, l in items]):
+                ok = self.prove(c, l, detail=detail) and ok
+            return ok
         m = self.last_model()
         if prefer:
             # a counterexample exists; prefer one with extra properties that make it easy to replay (purely cosmetic)
